@@ -264,7 +264,7 @@ pub struct RecOutcome {
     pub singles: Vec<(String, Result<(String, BTreeMap<String, String>), String>)>,
 }
 
-fn to_snapshot(m: &BTreeMap<in_toto::models::VirtualTargetPath, in_toto::models::TargetDescription>) -> Snapshot {
+pub(crate) fn to_snapshot(m: &BTreeMap<in_toto::models::VirtualTargetPath, in_toto::models::TargetDescription>) -> Snapshot {
     let v = serde_json::to_value(m).unwrap_or(Value::Null);
     let mut out = Snapshot::new();
     if let Some(o) = v.as_object() {
@@ -375,7 +375,7 @@ pub fn run_recorder(t: &RecorderTrace, scratch: &Scratch) -> RecOutcome {
     }
 }
 
-fn compare(what: &str, got: &Snapshot, e: &Expect, f: &mut Vec<Finding>) {
+pub(crate) fn compare(what: &str, got: &Snapshot, e: &Expect, f: &mut Vec<Finding>) {
     let dont_care = |k: &str| e.dangling.iter().any(|d| d == k) || e.cyclic.iter().any(|c| k.starts_with(&format!("{}/", c)) || k == c);
     for (k, files) in &e.entries {
         if dont_care(k) {
